@@ -16,7 +16,11 @@ pub fn configs(tier: Tier) -> Vec<Box<dyn Config>> {
         v.push(super::c09::map_cfg(Plan::Seq, if q { 4 } else { 5 }, p.clone(), tier, "map-many-mut"));
         v.push(super::c06::tab(Plan::Zero, if q { 4 } else { 6 }, if q { 5 } else { 8 }, vec![TProbe::ManyMut], false, tier, "-many-mut"));
         v.push(super::c06::tab(Plan::Adv(0), 4, 5, vec![TProbe::ManyMut], false, tier, "-many-mut"));
+        v.push(super::c06::tab(Plan::Mid, 4, 5, vec![TProbe::ManyMut], false, tier, "-many-mut"));
+        v.push(super::c09::map_cfg(Plan::Mid, 4, p.clone(), tier, "map-many-mut"));
     } else {
+        v.push(super::c06::tab(Plan::Mid, 4, 5, vec![TProbe::ManyMut], false, tier, "-many-mut"));
+        v.push(super::c09::map_cfg(Plan::Mid, 4, p.clone(), tier, "map-many-mut"));
         v.push(super::c09::map_cfg(Plan::Zero, if q { 5 } else { 9 }, p.clone(), tier, "map-many-mut"));
         v.push(super::c09::map_cfg(Plan::Adv(0), if q { 4 } else { 6 }, p.clone(), tier, "map-many-mut"));
         v.push(super::c06::tab(Plan::Zero, if q { 4 } else { 6 }, if q { 5 } else { 8 }, vec![TProbe::ManyMut], false, tier, "-many-mut"));
